@@ -1,6 +1,8 @@
-(* Extraction of the executable model of the bytecode VM and of the bytecode verifier (Bvm/Model.v, Bvm/Verify.v;
+(* Extraction of the executable model of the bytecode VM and of the bytecode verifier (Bvm/Model.v, Bvm/XModel.v, Bvm/Verify.v;
    property C03, serves C01/C02) (ExtrOcamlBasic + ExtrOcamlString only; N / Z / positive stay inductive). *)
 From Coq Require Import List ZArith NArith.
 From Coq Require Import ExtrOcamlBasic ExtrOcamlString.
-From Mimium Require Import Bvm.Model Bvm.Verify.
-Extraction "bvm_model.ml" decode run exec_main exec_dsp mach0 run_session verify verify_fn infer check_fn first_bad term_ok costs fuel_dsp fuel_main.
+From Mimium Require Import Bvm.Model Bvm.Verify Bvm.XModel Bvm.XVerify.
+Extraction "bvm_model.ml" decode run exec_main exec_dsp mach0 run_session verify verify_fn infer check_fn first_bad term_ok costs fuel_dsp fuel_main
+  xdecode xrun xexec_main xexec_dsp xmach0 x_ncls x_nheap
+  xverify xfirst_bad closure_free.
